@@ -194,8 +194,12 @@ func main() {
 			cause := f.class
 			parts := strings.Split(f.class, "|")
 			switch {
-			case len(parts) > 1 && (parts[1] == "datum" || strings.HasPrefix(parts[1], "towgs84")):
-				cause = "datum-shift:" + parts[1]
+			case len(parts) > 1 && strings.Contains(parts[1], "towgs84-7"):
+				cause = "datum-shift:towgs84-7"
+			case len(parts) > 1 && strings.Contains(parts[1], "towgs84-3"):
+				cause = "datum-shift:towgs84-3"
+			case len(parts) > 1 && parts[1] == "datum":
+				cause = "datum-shift:datum"
 			case len(parts) > 1 && parts[1] == "sphere" && (parts[0] == "tmerc" || parts[0] == "utm"):
 				cause = "spherical-transverse-mercator"
 			}
